@@ -1,0 +1,38 @@
+// Copyright 2020-2025 Buf Technologies, Inc.
+//
+// Licensed under the Apache License, Version 2.0 (the "License");
+// you may not use this file except in compliance with the License.
+// You may obtain a copy of the License at
+//
+//      http://www.apache.org/licenses/LICENSE-2.0
+//
+// Unless required by applicable law or agreed to in writing, software
+// distributed under the License is distributed on an "AS IS" BASIS,
+// WITHOUT WARRANTIES OR CONDITIONS OF ANY KIND, either express or implied.
+// See the License for the specific language governing permissions and
+// limitations under the License.
+
+//go:build verif
+
+package bufctl
+
+// Contracts for the gocv verifier (see /verif/DESIGN.md), author ca-r4f. Comment-only.
+//
+// C20 "all error formats": the controller accepts an --error-format exactly when it is empty (= text) or one of the listed
+// canonical names (bufanalysis.AllFormatStrings, whose content is pinned by table[rf_allFormatStrings.*]); anything else is
+// refused with an invalid-argument error before any command work is done (so a misspelt format can neither end in status 0
+// nor in status 100). With the content of that list: exactly "", text, json, msvs, junit, github-actions.
+//@ func validateFileAnnotationErrorFormat(fileAnnotationErrorFormat) (err)
+//@   property C20
+//@   modifies heap
+//@   ensures accepted-exactly-the-listed-formats: (err == nil) <==> (fileAnnotationErrorFormat == "" || (exists i int :: 0 <= i && i < len(bufanalysis.AllFormatStrings) && bufanalysis.AllFormatStrings[i] == fileAnnotationErrorFormat))
+// (the hypothesis is literally table[rf_allFormatStrings.the-canonical-names], discharged in bufanalysis/zz_verif_contracts_r4f.go)
+//@   ensures the-five-names: len(bufanalysis.AllFormatStrings) == 5 && bufanalysis.AllFormatStrings[0] == "text" && bufanalysis.AllFormatStrings[1] == "json" && bufanalysis.AllFormatStrings[2] == "msvs" && bufanalysis.AllFormatStrings[3] == "junit" && bufanalysis.AllFormatStrings[4] == "github-actions" ==> ((err == nil) <==> (fileAnnotationErrorFormat == "" || fileAnnotationErrorFormat == "text" || fileAnnotationErrorFormat == "json" || fileAnnotationErrorFormat == "msvs" || fileAnnotationErrorFormat == "junit" || fileAnnotationErrorFormat == "github-actions"))
+//@   ensures refusal-is-invalid-argument: err != nil ==> typeOf(err) == typeId(*appcmd.invalidArgumentError)
+//@   canary ensures err == nil
+//@   canary ensures err != nil
+//
+// Not under contract here (reported): getImage / getImageForInputConfig / getImageForRef / warnUnconfiguredTransitiveImports. A
+// contract for them must list the ghost variables of their contracted callees (c2_*, b2_*, rg_warnMsgs of (*slog.Logger).Warn)
+// under modifies, and then the frame obligations of their contracted callers GetImage / GetImageForInputConfig /
+// getImageForWorkspace (files of other authors, modifies: heap, annotPrinted, fail, wfail [, c2_*]) no longer discharge.
